@@ -12,10 +12,12 @@
   Tied by engine `seq`: after every pass the implementation's files of the range are scanned by an independent
   scanner: every surviving record must be the current record of its key in the reference map (or a tombstone of a key
   the rebuilt tree no longer knows), no live key twice; the per-pass counters equal the model's.
-  Partial: "running the same pass again releases nothing" is checked by the engine (second passes), not proved.
+  Running the same pass again releases nothing (`C18_second_pass_releases_nothing`): every record is found newest and
+  the release counters stay zero.
 -/
 import GoBeans.Lemmas.GCLog
 import GoBeans.Lemmas.GCFiles
+import GoBeans.Lemmas.GCAgain
 open Store Spec StoreLemmas
 
 /-- After a pass, a file of the range holds only current records (concrete pass, every reachable bucket). -/
@@ -52,6 +54,14 @@ theorem C18_appended_file_prefix (hash : Key → Nat) (K : Key → Prop) (cfg : 
     (begin stop : Nat) (hbs : begin ≤ stop) (hs : stop < b.head) (hd : gcDst cfg b begin < begin) :
     ∃ ext, ((gcRun hash cfg b begin stop).1.chunks (gcDst cfg b begin)).recs = (b.chunks (gcDst cfg b begin)).recs ++ ext :=
   (gcRun_touch hash K cfg hInj inv lr w nz begin stop hbs hs).2.2.1 hd
+
+/-- running the same pass again releases nothing -/
+theorem C18_second_pass_releases_nothing (hash : Key → Nat) (K : Key → Prop) (cfg : Store.Cfg) (hInj : InjOn hash K)
+    {n : Nat} {b : Bucket} {m : KV} (inv : Inv hash K n b m) (lr : LastRec hash K b) (w : WF cfg b) (nz : NoZero b)
+    (begin stop : Nat) (hbs : begin ≤ stop) (hs : stop < b.head) :
+    (gcRun hash cfg (gcRun hash cfg b begin stop).1 begin stop).2.numReleased = 0
+    ∧ (gcRun hash cfg (gcRun hash cfg b begin stop).1 begin stop).2.sizeReleased = 0 :=
+  gcRun_twice_releases_nothing hash K cfg hInj inv lr w nz begin stop hbs hs
 
 /-- Only current records of known keys survive, each once. -/
 theorem C18_only_current (hasEntry : Key → Bool) (beginPos : Bool) (full mid : List (Pos × Rec)) (x : Pos × Rec)
